@@ -21,8 +21,8 @@ for p in "${patches[@]}"; do
   [ "${ALL:-0}" = 1 ] && props="$prop $(echo C01 C04 C08 C18 C19 C20 | tr ' ' '\n' | grep -v "^$prop$" | tr '\n' ' ')"
   for q in $props; do
     out=$(VERIF_REPO="$W" VERIF_EVIDENCE_DIR="$W/.evidence" ./check "$q" "${TIER:-quick}" 2>&1); code=$?
-    v=$(echo "$out" | grep -c '^VIOLATION')
-    ids=$(echo "$out" | grep '^violation detail' | sed -e 's/.*check=\([^ ]*\).*/\1/' | tr '\n' ',' )
+    v=$(echo "$out" | grep -a -c '^VIOLATION')
+    ids=$(echo "$out" | grep -a '^violation detail' | sed -e 's/.*check=\([^ ]*\).*/\1/' | tr '\n' ',' )
     case $code in
       0) echo "$name $q: missed" ;;
       1) echo "$name $q: DETECTED ($v violations: $ids)" ;;
